@@ -275,7 +275,7 @@ class ClusterGraph(UndirectedGraph):
         >>> student.get_cardinality(node='Alice')
         2
         """
-        if node:
+        if node is not None:
             for factor in self.factors:
                 for variable, cardinality in zip(factor.scope(), factor.cardinality):
                     if node == variable:
